@@ -421,6 +421,16 @@ def run(c) -> CaseResult:
                         if ff is None:
                             continue
                         gt_tol = 1e-4 if cls == "RMSNorm" else (2e-4 if f32 else 1e-9)
+                        if cls == "RMSNorm" and k.startswith("input"):
+                            # float32 denominator (by design): the library's error is ~1e-7 x |g| |w| / rms(x); when the true
+                            # gradient is a small remainder of that (upstream nearly parallel to x) nothing can be fitted (as in C02)
+                            x64 = fl[0].detach().double()
+                            dims_ = tuple(range(-len(c["ns"]), 0))
+                            min_rms = x64.pow(2).mean(dims_).sqrt().min().item()
+                            wmax = m.weight.detach().abs().max().item() if getattr(m, "weight", None) is not None else 1.0
+                            nat = up.abs().max().item() * wmax / max(min_rms, 1e-300)
+                            if b.detach().double().abs().max().item() < max(1e-2, 4 * 1e-7 / gt_tol) * nat:
+                                continue
                         if not ff[1] <= gt_tol or not ff[0] > 0:
                             res.fail(f"C08.twin.grad:{cls}:{k.split('.')[-1]}", f"gradient wrt {k} is not a positive multiple of the twin's: s={ff[0]!r} residual={ff[1]:.3g}")
     res.nontrivial = True
